@@ -324,6 +324,15 @@ func (x *Exec) mathFacts(terms []*Term) []*Term {
 				out = append(out, Gt(a, zero), Lt(a, mk("2.0", SReal)))
 			case "rfn_pow":
 				out = append(out, Implies(Gt(arg, zero), Gt(a, zero)), Implies(Ge(arg, zero), Ge(a, zero)))
+				// small literal exponents: x^1 = x, x^2 = x*x, x^3 = x*x*x
+				switch a.Args[1].Op {
+				case "1.0":
+					out = append(out, Eq(a, arg))
+				case "2.0":
+					out = append(out, Eq(a, mk("*", SReal, arg, arg)))
+				case "3.0":
+					out = append(out, Eq(a, mk("*", SReal, arg, mk("*", SReal, arg, arg))))
+				}
 				// base > 1: the power is above, at or below 1 with the sign of the exponent
 				one, ex := mk("1.0", SReal), a.Args[1]
 				out = append(out, Implies(And(Gt(arg, one), Gt(ex, zero)), Gt(a, one)),
